@@ -37,6 +37,16 @@ def _expected_dtype(tdtype, precision):
     return np.result_type(tdtype, precision)
 
 
+def _arg(case, traces):
+    """what the caller passes: the case's values in some memory layout and, for multi-byte samples, sometimes in non-native byte order
+    (data read or memory-mapped from a big-endian file); both derived from the case digest"""
+    from vlib.core import digest
+    a = gen.L(case, traces)
+    if a.dtype.itemsize > 1 and digest(case)[7] % 4 == 0:
+        a = a.astype(a.dtype.newbyteorder('>'))
+    return a
+
+
 def _frame_positions(frame, L):
     if frame is None or frame is Ellipsis:
         return list(range(L))
@@ -103,7 +113,7 @@ def check_combination(ctx, case):
              {'product': ho.Product, 'difference': ho.Difference, 'absdiff': ho.AbsoluteDifference, 'centered': ho.CenteredProduct}[case['sibling_op']], **kw2)
     if traces.shape[0] > 1:
         _prime(case, op, p, traces)
-    out = must(case, '%s on %s%s' % (op, traces.dtype, traces.shape), p, gen.L(case, traces))
+    out = must(case, '%s on %s%s' % (op, traces.dtype, traces.shape), p, _arg(case, traces))
     _hold(p, traces)
     n, L = traces.shape
     pairs = _pairs(cfg, L)
@@ -191,7 +201,7 @@ def check_first_order(ctx, case):
             f = pp.StandardizeOn(mean=case['mean'], std=case['std'], precision=prec)
         else:
             raise ValueError(op)
-        out = must(case, '%s on %s%s' % (op, traces.dtype, traces.shape), f, gen.L(case, traces))
+        out = must(case, '%s on %s%s' % (op, traces.dtype, traces.shape), f, _arg(case, traces))
     if not isinstance(out, np.ndarray) or out.ndim != 2 or out.shape[0] != n:
         raise Violation('%s: result is not a 2-D array with one row per trace' % op, case)
     batch_dep = op in ('center', 'standardize') or (op == 'centeron' and case['mean'] is None) or (op == 'standardizeon' and (case['mean'] is None or case['std'] is None))
@@ -308,7 +318,7 @@ def check_timefreq(ctx, case):
         p = must(case, 'constructing %s(%s)' % (op, sorted(kw)), klass, **kw)
         if traces.shape[0] > 1:
             _prime(case, op, p, traces)
-        out = must(case, '%s on %s%s' % (op, traces.dtype, traces.shape), p, gen.L(case, traces))
+        out = must(case, '%s on %s%s' % (op, traces.dtype, traces.shape), p, _arg(case, traces))
         _hold(p, traces)
     n, L = traces.shape
     g1 = f1 if f1 is not None else f2
@@ -334,12 +344,32 @@ def check_timefreq(ctx, case):
         if np.any(sd < 1e-3 * (np.abs(T).max() + 1)):
             ctx.count('skipped_tiny_std_column')
             return
+    perts = []
     eps = float(np.finfo(out.dtype).eps) if out.dtype.kind == 'f' else 2.0 ** -52
     if traces.dtype == np.float32 or mode in ('centered', 'standardized') and np.result_type(traces.dtype, 'float32') == np.float32:
         eps = max(eps, float(np.finfo('float32').eps))
+    # centring / standardising happens in the working precision: every centred value carries an ABSOLUTE error of the order of
+    # eps x the magnitude of the raw column (cancellation when the mean is large compared with the deviations), divided by the column's std when standardised
+    def _delta(cols):
+        if not mode:
+            return np.zeros(len(cols))
+        raw = np.abs(T[:, cols]).max(axis=0)
+        d = 8 * n * eps * raw
+        return d / T[:, cols].std(axis=0) if mode == 'standardized' else d
+    with np.errstate(all='ignore'):
+        da, db = _delta(p1), _delta(p2)
     exp_rows = []
     for r in range(n):
         x1, x2 = [float(v) for v in a[r]], [float(v) for v in b[r]]
+        s1, s2 = sum(abs(v) for v in x1), sum(abs(v) for v in x2)
+        s1p, s2p = s1 + float(da.sum()), s2 + float(db.sum())
+        if op in ('Xcorr', 'WindowFFT', 'WindowFHT'):
+            pert = s1p * s2p - s1 * s2
+        elif op == 'MaxCorr':
+            pert = (s1p + s2p) - (s1 + s2)
+        else:
+            pert = 2 * ((s1p + s2p) ** 2 - (s1 + s2) ** 2)
+        perts.append(pert)
         if op in ('Xcorr', 'WindowFFT', 'WindowFHT'):
             F1, F2 = _rfft(x1), _rfft(x2)
             if op == 'Xcorr':
@@ -368,7 +398,7 @@ def check_timefreq(ctx, case):
     factor = 64 * nn * (4 * n if mode else 1)
     for r, (row, scale) in enumerate(exp_rows):
         for k, e in enumerate(row):
-            if not abs(float(out[r, k]) - e) <= factor * eps * (scale + 1e-300) + 1e-300:
+            if not abs(float(out[r, k]) - e) <= factor * eps * (scale + 1e-300) + 4 * perts[r] + 1e-300:
                 raise Violation('%s(mode=%s): trace %d output %d: got %r, formula gives %r' % (op, mode, r, k, float(out[r, k]), e), case)
     if op == 'Xcorr' and len(p1) % 2 == 0 and not mode:
         # direct circular cross-correlation for even lengths
